@@ -224,6 +224,8 @@ def run_target(prop, binary, tier, seed, runs, workers, max_len, known_sigs=(), 
                 if "-crash-" in base or "-leak-" in base:
                     keep = os.path.join(art, label + "__raw-" + hashlib.sha1(open(a, "rb").read()).hexdigest()[:16])
                     shutil.copy(a, keep)
+                    with open(keep + ".log", "w") as lf:  # what the worker printed when it died (triage of flaky crashes)
+                        lf.write(text[-20000:])
                     res.findings.append({"kind": kind if kind in ("violation", "sanitizer") else "sanitizer", "signature": sig, "reason": reason, "case": case, "path": keep, "from": "generated"})
                 else:
                     res.noise.append({"kind": base.split("-")[2] if base.count("-") > 2 else "other", "path": a})
